@@ -325,6 +325,10 @@ class Env:
                                     return v
                             elif v[0] == 'n':
                                 nums.append(v[1])
+                            elif v[0] == 't' and to_number(v) is not None:
+                                # numeric text inside a referenced range: skipped like other text (Excel) or counted as a
+                                # number (the library)?  The statements do not fix it (DESIGN 3.1): no verdict for this workbook
+                                raise Ambiguous('numeric text inside a referenced range under %s' % name)
                 else:
                     if x[0] == 'e':
                         if name != 'COUNT':
